@@ -125,7 +125,7 @@ func genC02(r *Rand, tier string, i int) *h.Scenario {
 	p := DefaultProfile("C02")
 	p.PLate = 0.8
 	p.PPostTerminalOps = 0.4
-	p.PQueueAfter = 0
+	p.PQueueAfter = 0.1 // successors created before their predecessor finishes (wave 15: s238)
 	p.PCancelEnd = 0.5
 	p.PTightTerm = 0.3
 	sc := GenBase(r, &p)
